@@ -71,8 +71,10 @@ Definition is_connecting (s : status_t) : bool := match s with Connecting => tru
 (* Observable events in global order; the generation is a ghost annotation. *)
 Inductive ev :=
 | EvSubCb (c : ch) (g : gen)       (* OnSubscribe handler invoked *)
-| EvCommit (c : ch) (g : gen)      (* ghost: commitSubscription installed the context *)
-| EvJoin (c : ch) (g : gen)        (* Broker.PublishJoin *)
+| EvCommit (t : tid) (c : ch) (g : gen) (jl : bool)
+                                   (* ghost: thread t's commitSubscription installed the context (jl = emits join/leave) *)
+| EvJoin (t : tid) (c : ch) (g : gen)        (* Broker.PublishJoin, called by thread t *)
+| EvJoinSkipped (t : tid) (c : ch) (g : gen) (* ghost: Client.Subscribe returned before its join (push not enqueued) *)
 | EvLeave (c : ch) (g : gen)       (* Broker.PublishLeave *)
 | EvUnsubCb (c : ch) (g : gen)     (* OnUnsubscribe handler *)
 | EvConnectCb | EvDisconnectCb | EvAliveCb.
@@ -343,7 +345,7 @@ Definition att_step (s : st) (t : tid) (a : att) (b : bool) : option st :=
                  (set_gst1 (a_use a) (GTear t c) (set_chans (remove c (chans s)) s))
             else
               go (with_cap a cap PRelease)
-                 (log (EvCommit c (a_use a))
+                 (log (EvCommit t c (a_use a) (o_jl (a_opts a)))
                     (set_gst1 (a_use a) (GLive c)
                        (set_chans (insert c (mkCtx (a_use a) true (is_srv (a_kind a)) false (a_opts a)) (chans s)) s)))
           else go (with_pc a PLostHubRem) s
@@ -366,8 +368,9 @@ Definition att_step (s : st) (t : tid) (a : att) (b : bool) : option st :=
   | PRelease => go (with_cap a None (if is_srv (a_kind a) then PPush else PJoin)) (close_cap (a_cap a) s)
   | PPush =>
       (* Client.Subscribe: the subscribe push is enqueued; a closed writer makes it return before the join *)
-      if wclosed s then fin s else go (with_pc a PJoin) s
-  | PJoin => fin (if o_jl (a_opts a) then log (EvJoin c (a_use a)) s else s)
+      if wclosed s then fin (if o_jl (a_opts a) then log (EvJoinSkipped t c (a_use a)) s else s)
+      else go (with_pc a PJoin) s
+  | PJoin => fin (if o_jl (a_opts a) then log (EvJoin t c (a_use a)) s else s)
   | PFailPres => go (with_pc a PErrDelete) (set_pres (upd (pres s) c false) s)
   | PErrDelete =>
       match lookup c (chans s) with
